@@ -288,6 +288,7 @@ type c16Plan struct {
 	client     *c16Client    // applies the answer …
 	applyAfter time.Duration // … this long after /answer (negative: never)
 	onAnswer   func(at time.Time)
+	onPoll     func(n int) // called after the n-th poll of this session was recorded, before it is answered
 
 	mu       sync.Mutex
 	polls    []int
@@ -321,6 +322,9 @@ func c16NewBroker() *c16Broker {
 		p.polls = append(p.polls, clients)
 		n := len(p.polls)
 		p.mu.Unlock()
+		if p.onPoll != nil {
+			p.onPoll(n)
+		}
 		switch p.poll {
 		case "http500":
 			w.WriteHeader(500)
@@ -933,6 +937,49 @@ func (e *c16Env) timeouts(M int) {
 	}
 }
 
+// repolled: a session that is told "no match" polls again pollInterval later; the load it reports must
+// be read again for every poll.  Nine other sessions hold a slot when the first poll is sent (reported
+// load 8) and are over before the second one (reported load must be 0: one slot in use).
+func (e *c16Env) repolled() {
+	r := e.r
+	tokens = newTokens(16)
+	const others = 9
+	for i := 0; i < others; i++ {
+		tokens.get()
+	}
+	var inUse []int64
+	p := &c16Plan{poll: "nomatch-then-error"}
+	p.onPoll = func(n int) {
+		inUse = append(inUse, tokens.count())
+		if n == 1 {
+			for i := 0; i < others; i++ {
+				tokens.ret()
+			}
+		}
+	}
+	_, o := e.session(e.sf, p, pollInterval+15*time.Second)
+	p.mu.Lock()
+	polls := append([]int{}, p.polls...)
+	p.mu.Unlock()
+	line := fmt.Sprintf("c16 load  [session polled %d times (no match, then error); slots in use at the polls: %v; runSession: %s]", len(polls), inUse, o)
+	var want []string
+	for _, c := range inUse {
+		want = append(want, r.Model(fmt.Sprintf("c16 load %d", c)))
+	}
+	r.Case("load/re-poll-after-sessions-ended", line, true)
+	r.Compare("load-per-poll", line, fmt.Sprint(polls), "["+strings.Join(want, " ")+"]")
+	for i, v := range polls {
+		if i < len(inUse) && (v%8 != 0 || int64(v) > inUse[i]) {
+			r.OracleFail("load-not-multiple-of-8-or-above-in-use", line, fmt.Sprint(polls),
+				fmt.Sprintf("poll %d reported Clients=%d with %d slots in use", i+1, v, inUse[i]))
+		}
+	}
+	if o != "ok" {
+		r.OracleFail("run-session-"+o, line, o, "runSession of the re-polling session did not return")
+	}
+	c16WaitCount(0, 2*time.Second, 0)
+}
+
 // ---------------------------------------------------------------------------------------------
 // D. C06, proxy side: relay URLs from the broker
 
@@ -1195,6 +1242,10 @@ func TestVerifC16(t *testing.T) {
 	if e.pionOK && !broken() {
 		e.capacityFull(1)
 		e.capacityFull(2)
+	}
+
+	if !broken() {
+		e.repolled()
 	}
 
 	// D
